@@ -69,9 +69,63 @@ def env():
         a_id = sa.Column(sa.ForeignKey("c37_oa.id"))
         a = orm.relationship(OA, back_populates="b")
 
+    from sqlalchemy.orm.collections import attribute_keyed_dict
+
+    class SP(Base):  # set collection
+        __tablename__ = "c37_sp"
+        id = sa.Column(sa.Integer, primary_key=True)
+        children = orm.relationship("SC", back_populates="parent", collection_class=set)
+
+    class SC(Base):
+        __tablename__ = "c37_sc"
+        id = sa.Column(sa.Integer, primary_key=True)
+        parent_id = sa.Column(sa.ForeignKey("c37_sp.id"))
+        parent = orm.relationship(SP, back_populates="children")
+
+    class DP(Base):  # dict collection keyed by the child's id
+        __tablename__ = "c37_dp"
+        id = sa.Column(sa.Integer, primary_key=True)
+        children = orm.relationship("DC", back_populates="parent", collection_class=attribute_keyed_dict("id"))
+
+    class DC(Base):
+        __tablename__ = "c37_dc"
+        id = sa.Column(sa.Integer, primary_key=True)
+        parent_id = sa.Column(sa.ForeignKey("c37_dp.id"))
+        parent = orm.relationship(DP, back_populates="children")
+
+    # children with VALUE based __eq__ / __hash__ (distinct objects may be equal): identity,
+    # not equality, must decide what the backref machinery does
+    class _Odd:
+        def __eq__(self, other):
+            return type(other) is type(self) and self.__dict__.get("tag") == other.__dict__.get("tag")
+
+        def __ne__(self, other):
+            return not self.__eq__(other)
+
+        def __hash__(self):
+            return 7
+
+        def __bool__(self):
+            return False
+
+        def __len__(self):
+            return 0
+
+    class XP(Base):
+        __tablename__ = "c37_xp"
+        id = sa.Column(sa.Integer, primary_key=True)
+        children = orm.relationship("XC", back_populates="parent", order_by="XC.id")
+
+    class XC(_Odd, Base):
+        __tablename__ = "c37_xc"
+        id = sa.Column(sa.Integer, primary_key=True)
+        tag = sa.Column(sa.Integer)
+        parent_id = sa.Column(sa.ForeignKey("c37_xp.id"))
+        parent = orm.relationship(XP, back_populates="children")
+
     eng = sa.create_engine("sqlite://", poolclass=StaticPool)
     Base.metadata.create_all(eng)
-    _ENV["e"] = dict(BP=BP, BC=BC, MA=MA, MB=MB, OA=OA, OB=OB, eng=eng, Base=Base)
+    _ENV["e"] = dict(BP=BP, BC=BC, MA=MA, MB=MB, OA=OA, OB=OB, SP=SP, SC=SC, DP=DP, DC=DC, XP=XP, XC=XC, eng=eng, Base=Base)
     return _ENV["e"]
 
 
@@ -92,9 +146,12 @@ class Runner:
                 c.execute(t.delete())
         self.sess = orm.Session(E["eng"], autoflush=False)
         na, nb = case["na"], case["nb"]
-        A, B = {"o2m": ("BP", "BC"), "m2m": ("MA", "MB"), "o2o": ("OA", "OB")}[self.kind]
+        A, B = {"o2m": ("BP", "BC"), "m2m": ("MA", "MB"), "o2o": ("OA", "OB"), "o2m-set": ("SP", "SC"), "o2m-dict": ("DP", "DC"), "o2m-odd": ("XP", "XC")}[self.kind]
         self.As = [E[A](id=i + 1) for i in range(na)]
         self.Bs = [E[B](id=i + 1) for i in range(nb)]
+        if self.kind == "o2m-odd":
+            for i, b in enumerate(self.Bs):
+                b.tag = i // 2  # children 0/1 and 2/3 are equal but distinct
         self.sess.add_all(self.As + self.Bs)
         if case.get("persistent"):
             self.sess.commit()
@@ -108,6 +165,7 @@ class Runner:
         self.model_frozen = False
         self.dupe = False
         self.displaced = False
+        self.eqmove = False
 
     def load_both(self, o):
         for k in ("children", "parent", "bs", "as_", "a", "b"):
@@ -116,10 +174,14 @@ class Runner:
 
     # accessors ---------------------------------------------------------------
     def coll(self, a):
-        return {"o2m": lambda: a.children, "m2m": lambda: a.bs}[self.kind]()
+        return a.bs if self.kind == "m2m" else a.children
+
+    def members(self, a):
+        c = self.coll(a)
+        return list(c.values()) if self.kind == "o2m-dict" else list(c)
 
     def show(self):
-        if self.kind != "o2m":
+        if self.kind not in ("o2m", "o2m-odd"):
             return ""
         kids = ",".join(dots([self.ib[id(c)] for c in a.children]) for a in self.As)
         par = ".".join("N" if b.parent is None else str(self.ia[id(b.parent)]) for b in self.Bs)
@@ -129,8 +191,8 @@ class Runner:
         bad = None
         for i, a in enumerate(self.As):
             for j, b in enumerate(self.Bs):
-                if self.kind == "o2m":
-                    left, right = any(x is b for x in a.children), b.parent is a
+                if self.kind.startswith("o2m"):
+                    left, right = any(x is b for x in self.members(a)), b.parent is a
                     desc = "(child %d in parent %d .children) = %s but (child.parent is parent) = %s" % (j, i, left, right)
                 elif self.kind == "m2m":
                     left, right = any(x is b for x in a.bs), any(x is a for x in b.as_)
@@ -147,9 +209,35 @@ class Runner:
             self.violations.append(("asymmetric", "%s: %s" % (where, bad)))
 
     # operations --------------------------------------------------------------
+    def note_moves(self, op):
+        """value-equal children: a child that is taken out of a list BY VALUE (`list.remove`, used by
+        the backref pop) must be the first element equal to it, else another object is removed"""
+        if self.kind != "o2m-odd":
+            return
+        moved = []
+        if op["op"] in ("sp", "app", "set", "rem"):
+            moved = [op["c"]]
+        elif op["op"] in ("rep", "ext", "sls"):
+            moved = list(op["l"])
+        if op["op"] in ("delp", "sp"):
+            self.eqmove = True  # scalar-side changes pop the child from a list by value
+        if op["op"] in ("rep", "sls") and op.get("p") is not None and len(self.As[op["p"]].children):
+            self.eqmove = True  # removals fire while the new list (with possibly equal members) is in place
+        for c in moved:
+            b = self.Bs[c]
+            q = b.parent
+            if q is None:
+                continue
+            eq = [x for x in q.children if x == b]
+            if eq and eq[0] is not b:
+                self.eqmove = True
+
     def step(self, op):
         k = op["op"]
         A, B = self.As, self.Bs
+        self.note_moves(op)
+        if self.eqmove:
+            self.model_frozen = True  # by-value removal of an equal object: outside the model
         outcome = "ok"
         mop = None
         try:
@@ -174,6 +262,8 @@ class Runner:
                         outcome = "attr"
                 else:
                     raise ValueError(op)
+            elif self.kind in ("o2m-set", "o2m-dict"):
+                outcome = self.step_setdict(op)
             else:
                 rev = op.get("rev", False)  # m2m only: operate on b.as_
                 if self.kind == "m2m" and rev:
@@ -228,6 +318,17 @@ class Runner:
                 elif k == "clr":
                     mop = "clr:%d" % op["p"]
                     coll.clear()
+                elif k == "delcoll":
+                    # `del parent.children`: every member is removed with events, the attribute is
+                    # dropped; the flush makes the row state agree before the collection is read again
+                    mop = "clr:%d" % op["p"]
+                    if rev:
+                        del owner.as_
+                    elif self.kind == "m2m":
+                        del owner.bs
+                    else:
+                        del owner.children
+                    self.sess.flush()
                 elif k == "ext":
                     new = [pool[i] for i in op["l"]]
                     if len(set(op["l"])) != len(op["l"]) or any(any(x is y for x in coll) for y in new):
@@ -252,19 +353,76 @@ class Runner:
         except Exception as e:  # noqa: BLE001
             self.violations.append(("op-raised", "%s raised %s: %s" % (json.dumps(op), type(e).__name__, e)))
             return None
-        if self.kind == "o2m" and mop is not None and not self.model_frozen:
+        if self.kind in ("o2m", "o2m-odd") and mop is not None and not self.model_frozen:
             self.model_ops.append(mop)
             self.obs.append(outcome + "/" + self.show())
         self.check("after %s" % json.dumps(op))
         return outcome
+
+    def step_setdict(self, op):
+        """set / dict collections of the one-to-many side (oracle only)"""
+        k = op["op"]
+        A, B = self.As, self.Bs
+        isdict = self.kind == "o2m-dict"
+        try:
+            if k == "sp":
+                B[op["c"]].parent = None if op["p"] is None else A[op["p"]]
+                return "ok"
+            if k == "delp":
+                try:
+                    del B[op["c"]].parent
+                except AttributeError:
+                    return "attr"
+                return "ok"
+            owner = A[op["p"]]
+            coll = owner.children
+            c = B[op["c"]] if "c" in op else None
+            if k == "app":
+                coll.__setitem__(c.id, c) if isdict else coll.add(c)
+            elif k == "rem":
+                coll.__delitem__(c.id) if isdict else coll.remove(c)
+            elif k == "disc":
+                coll.pop(c.id, None) if isdict else coll.discard(c)
+            elif k == "pop":
+                if isdict:
+                    coll.pop(c.id)
+                else:
+                    coll.pop()
+            elif k == "popitem":
+                coll.popitem() if isdict else coll.pop()
+            elif k == "sdf":
+                coll.setdefault(c.id, c) if isdict else coll.add(c)
+            elif k == "upd":
+                new = [B[i] for i in op["l"]]
+                coll.update({x.id: x for x in new}) if isdict else coll.update(new)
+            elif k == "dif":
+                new = [B[i] for i in op["l"]]
+                if isdict:
+                    for x in new:
+                        coll.pop(x.id, None)
+                else:
+                    coll.difference_update(new)
+            elif k == "clr":
+                coll.clear()
+            elif k == "rep":
+                new = [B[i] for i in op["l"]]
+                owner.children = {x.id: x for x in new} if isdict else set(new)
+            elif k == "delcoll":
+                del owner.children
+                self.sess.flush()
+            else:
+                raise ValueError(op)
+        except (KeyError, ValueError):
+            return "key"
+        return "ok"
 
     def finish(self):
         if self.violations:
             return
         try:
             # membership before the round trip (as sets: a row holds one link)
-            if self.kind == "o2m":
-                mem = {i: sorted({self.ib[id(c)] for c in a.children}) for i, a in enumerate(self.As)}
+            if self.kind.startswith("o2m"):
+                mem = {i: sorted({self.ib[id(c)] for c in self.members(a)}) for i, a in enumerate(self.As)}
             elif self.kind == "m2m":
                 mem = {i: sorted({self.ib[id(c)] for c in a.bs}) for i, a in enumerate(self.As)}
             else:
@@ -274,8 +432,8 @@ class Runner:
             self.check("after flush + commit + reload")
             if self.violations:
                 return
-            if self.kind == "o2m":
-                now = {i: sorted(self.ib[id(c)] for c in a.children) for i, a in enumerate(self.As)}
+            if self.kind.startswith("o2m"):
+                now = {i: sorted(self.ib[id(c)] for c in self.members(a)) for i, a in enumerate(self.As)}
             elif self.kind == "m2m":
                 now = {i: sorted(self.ib[id(c)] for c in a.bs) for i, a in enumerate(self.As)}
             else:
@@ -312,6 +470,52 @@ def gen_op(rng, R, dupes):
         if c < 0.95:
             return {"op": "dela", "a": rng.randrange(na)}
         return {"op": "delb", "b": rng.randrange(nb)}
+    if kind in ("o2m-set", "o2m-dict"):
+        p = rng.randrange(na)
+        cur = [R.ib[id(x)] for x in R.members(R.As[p])]
+        c = rng.choice(["sp", "sp", "app", "app", "rem", "disc", "pop", "popitem", "sdf", "upd", "dif", "clr", "rep", "delcoll", "delp"])
+        if c == "sp":
+            return {"op": "sp", "c": rng.randrange(nb), "p": rng.choice([None] + list(range(na)))}
+        if c == "delp":
+            return {"op": "delp", "c": rng.randrange(nb)}
+        if c in ("app", "sdf"):
+            return {"op": c, "p": p, "c": rng.randrange(nb)}
+        if c in ("rem", "disc", "pop"):
+            return {"op": c, "p": p, "c": rng.choice(cur) if cur and rng.random() < 0.85 else rng.randrange(nb)}
+        if c in ("upd", "dif", "rep"):
+            return {"op": c, "p": p, "l": rng.sample(range(nb), rng.randint(0, min(3, nb)))}
+        return {"op": c, "p": p}
+    if kind == "o2m-odd" and not dupes:
+        # value-equal but distinct children: only operations whose removals are positional or name
+        # the first equal element, and whose additions take children that have no parent yet —
+        # every by-value removal inside the ORM (backref pop = list.remove) would otherwise take
+        # whichever equal object comes first
+        p = rng.randrange(na)
+        cur = [R.ib[id(x)] for x in R.As[p].children]
+        n = len(cur)
+        free = [i for i, b in enumerate(R.Bs) if b.parent is None and not any(x is b for a in R.As for x in a.children)]
+        ii = lambda: rng.randint(-n - 1, n + 1) if rng.random() < 0.2 or n == 0 else rng.randint(-n, n - 1)  # noqa: E731
+        for _ in range(10):
+            c = rng.choice(["app", "app", "app", "pop", "del", "dls", "set", "rem", "clr", "delcoll", "fill"])
+            if c == "app" and free:
+                return {"op": "app", "p": p, "c": rng.choice(free)}
+            if c == "fill" and free and n == 0:
+                return {"op": "rep", "p": p, "l": rng.sample(free, rng.randint(1, len(free)))}
+            if c in ("pop", "del"):
+                return {"op": c, "p": p, "i": ii()}
+            if c == "dls":
+                return {"op": "dls", "p": p, "sl": rand_slice(rng, n)}
+            if c == "set" and free and n:
+                return {"op": "set", "p": p, "i": rng.randint(-n, n - 1), "c": rng.choice(free)}
+            if c == "rem" and cur:
+                x = rng.choice(cur)
+                eq = [y for y in cur if y // 2 == x // 2]
+                return {"op": "rem", "p": p, "c": eq[0]}
+            if c == "clr" and rng.random() < 0.3:
+                return {"op": "clr", "p": p}
+            if c == "delcoll" and rng.random() < 0.3:
+                return {"op": "delcoll", "p": p}
+        return {"op": "pop", "p": p, "i": -1}
     rev = kind == "m2m" and rng.random() < 0.5
     if rev:
         p = rng.randrange(nb)
@@ -330,17 +534,26 @@ def gen_op(rng, R, dupes):
     if rev:
         base["rev"] = True
     for _ in range(10):
-        c = rng.choice(["sp", "sp", "app", "app", "rem", "pop", "del", "set", "rep", "clr", "ext", "sls", "dls", "delp"])
-        if c == "sp" and kind == "o2m":
+        c = rng.choice(["sp", "sp", "app", "app", "rem", "pop", "del", "set", "rep", "clr", "ext", "sls", "dls", "delp", "delcoll"])
+        if c == "delcoll" and rng.random() < 0.5:
+            return dict(base, op="delcoll")
+        if c == "sp" and kind in ("o2m", "o2m-odd"):
             return {"op": "sp", "c": rng.randrange(nb), "p": rng.choice([None] + list(range(na)))}
-        if c == "delp" and kind == "o2m" and rng.random() < 0.3:
+        if c == "delp" and kind in ("o2m", "o2m-odd") and rng.random() < 0.3:
             return {"op": "delp", "c": rng.randrange(nb)}
         if c == "app":
             x = pick_new()
             if x is not None:
                 return dict(base, op="app", c=x)
         if c == "rem":
-            return dict(base, op="rem", c=rng.choice(cur) if cur and rng.random() < 0.85 else rng.randrange(pool_n))
+            x = rng.choice(cur) if cur and rng.random() < 0.85 else rng.randrange(pool_n)
+            if kind == "o2m-odd":
+                # list.remove() takes the first EQUAL element: only ask for an object that is itself
+                # the first one equal to it (or for one with no equal element in the list)
+                eq = [y for y in cur if y // 2 == x // 2]
+                if eq and eq[0] != x:
+                    x = eq[0]
+            return dict(base, op="rem", c=x)
         if c in ("pop", "del"):
             return dict(base, op=c, i=ii())
         if c == "set":
@@ -371,14 +584,32 @@ def gen_op(rng, R, dupes):
 
 
 def gen_case(rng, stream, maxops):
-    kind = rng.choice(["o2m", "o2m", "o2m", "m2m", "o2o"])
-    return {"kind": kind, "na": rng.choice([2, 3]), "nb": rng.choice([3, 4]), "persistent": rng.random() < 0.4, "ops": [], "stream": stream, "maxops": rng.randint(3, maxops)}
+    kind = rng.choice(["o2m", "o2m", "o2m", "m2m", "o2o", "o2m-set", "o2m-dict", "o2m-odd", "o2m-odd"])
+    return {"kind": kind, "na": rng.choice([2, 3]), "nb": 4 if kind == "o2m-odd" else rng.choice([3, 4]), "persistent": rng.random() < 0.4, "ops": [], "stream": stream, "maxops": rng.randint(3, maxops)}
+
+
+def moves_ok(R, op):
+    if R.kind != "o2m-odd":
+        return True
+    saved = R.eqmove
+    R.eqmove = False
+    R.note_moves(op)
+    bad = R.eqmove
+    R.eqmove = saved
+    return not bad
 
 
 def drive(rng, case):
     R = Runner(case)
     while len(case["ops"]) < case["maxops"] and not R.violations:
         op = gen_op(rng, R, case["stream"] == "dupes")
+        if case["stream"] != "dupes":
+            for _ in range(20):
+                if moves_ok(R, op):
+                    break
+                op = gen_op(rng, R, False)
+            else:
+                op = {"op": "clr", "p": 0}
         case["ops"].append(op)
         R.step(op)
     R.finish()
@@ -403,6 +634,8 @@ def key_of(R):
     kind = R.violations[0][0]
     if R.dupe:
         return "c37:duplicate-member-in-list-collection"
+    if R.eqmove:
+        return "c37:value-equal-child-removed-by-equality"
     if R.displaced and R.kind == "o2o":
         return "c37:one-to-one-displaced-partner-keeps-reference"
     return "c37:" + kind
@@ -423,7 +656,7 @@ def run_one(ctx, case, do_drive, cases, impl_out, reqs):
             ctx.violation(key_of(R), {k: v for k, v in case.items() if k not in ("stream", "maxops")}, R.violations[0][1])
         if case.get("stream") == "main" and len(case["ops"]) >= 8 and case["kind"] == "o2m":
             ctx.sample({"case": case, "final": R.obs[-1] if R.obs else ""}, cap=4)
-        if case["kind"] == "o2m":
+        if case["kind"] in ("o2m", "o2m-odd"):
             cases.append(case)
             impl_out.append("|".join(R.obs) if R.obs else "-")
             reqs.append(model_line(case, R))
